@@ -98,7 +98,25 @@ func (e *Engine) globalSlot(g *ssa.Global) *Value {
 		return s
 	}
 	if g.Pkg == nil || !strings.HasPrefix(g.Pkg.Pkg.Path(), e.sh.modPath) {
-		unsupported("global of library package: %s", g.String())
+		// library initialisers are not executed; a few kinds of library globals
+		// have an obvious initial value
+		elem := g.Type().Underlying().(*types.Pointer).Elem()
+		s := new(Value)
+		switch {
+		case types.Identical(elem, types.Universe.Lookup("error").Type()):
+			// sentinel errors (io.EOF, strconv.ErrSyntax, ...): one distinct error each
+			*s = e.newError(mkStr(g.String()))
+		case g.String() == "strings.asciiSpace" || g.String() == "bytes.asciiSpace":
+			av := zero(elem).(*ArrayVal)
+			for _, c := range []int{'\t', '\n', '\v', '\f', '\r', ' '} {
+				av.elems[c] = mkInt(1)
+			}
+			*s = av
+		default:
+			unsupported("global of library package: %s", g.String())
+		}
+		e.globals[g] = s
+		return s
 	}
 	s := new(Value)
 	*s = zero(g.Type().Underlying().(*types.Pointer).Elem())
@@ -776,9 +794,22 @@ func (e *Engine) binop(op token.Token, x, y Value) Value {
 		if a.konst && b.konst {
 			return mkInt(a.iv & b.iv)
 		}
+		if r := e.bitwise(op, a, b); r != nil {
+			return r
+		}
 	case token.OR:
 		if a.konst && b.konst {
 			return mkInt(a.iv | b.iv)
+		}
+		if r := e.bitwise(op, a, b); r != nil {
+			return r
+		}
+	case token.XOR:
+		if a.konst && b.konst {
+			return mkInt(a.iv ^ b.iv)
+		}
+		if r := e.bitwise(op, a, b); r != nil {
+			return r
 		}
 	}
 	unsupported("binop %s on symbolic ints", op.String())
@@ -1113,4 +1144,98 @@ func (e *Engine) builtin(fr *Frame, b *ssa.Builtin, c *ssa.CallCommon, args []Va
 	}
 	unsupported("builtin %s(%T)", b.Name(), args[0])
 	return nil
+}
+
+// bitWidth: k such that 0 <= t < 2^k is known structurally (constants, tracked
+// byte variables, ite/mod/bitwise combinations of those); ok=false otherwise.
+func (e *Engine) bitWidth(t *Term) (int, bool) {
+	if t.isBool {
+		return 0, false
+	}
+	if t.konst {
+		if t.iv < 0 || t.iv >= 1<<16 {
+			return 0, false
+		}
+		k := 0
+		for (int64(1) << uint(k)) <= t.iv {
+			k++
+		}
+		return k, true
+	}
+	if w, ok := e.bitw[t]; ok {
+		return w, true
+	}
+	switch t.op {
+	case "var":
+		if _, ok := e.doms[t.s]; ok {
+			return 8, true
+		}
+	case "ite":
+		a, oka := e.bitWidth(t.args[1])
+		b, okb := e.bitWidth(t.args[2])
+		if oka && okb {
+			return max(a, b), true
+		}
+	case "mod":
+		if t.args[1].konst && t.args[1].iv > 0 {
+			return e.bitWidth(mkInt(t.args[1].iv - 1))
+		}
+	}
+	// not structural: ask whether the path condition entails a byte range
+	if e.sol.CheckWith(tNot(tAnd(tCmp("<=", mkInt(0), t), tCmp("<=", t, mkInt(255))))) == "unsat" {
+		e.bitw[t] = 8
+		return 8, true
+	}
+	return 0, false
+}
+
+// bitwise encodes &, | and ^ on values of known small width bit by bit in
+// integer arithmetic (bit i of x is (x div 2^i) mod 2); nil when a width is
+// not known.
+func (e *Engine) bitwise(op token.Token, a, b *Term) *Term {
+	wa, oka := e.bitWidth(a)
+	wb, okb := e.bitWidth(b)
+	if !oka || !okb {
+		return nil
+	}
+	w := max(wa, wb)
+	if op == token.AND {
+		w = min(wa, wb)
+	}
+	bit := func(x *Term, i int) *Term {
+		if x.konst {
+			return mkInt((x.iv >> uint(i)) & 1)
+		}
+		return app(false, "mod", app(false, "div", x, mkInt(int64(1)<<uint(i))), mkInt(2))
+	}
+	r := mkInt(0)
+	for i := 0; i < w; i++ {
+		x, y := bit(a, i), bit(b, i)
+		var z *Term
+		switch {
+		case x.konst && y.konst:
+			switch op {
+			case token.AND:
+				z = mkInt(x.iv & y.iv)
+			case token.OR:
+				z = mkInt(x.iv | y.iv)
+			default:
+				z = mkInt(x.iv ^ y.iv)
+			}
+		case op == token.AND:
+			z = tArith("*", x, y)
+			if !x.konst && !y.konst {
+				z = tIte(tAnd(tEq(x, mkInt(1)), tEq(y, mkInt(1))), mkInt(1), mkInt(0))
+			}
+		case op == token.OR:
+			z = tIte(tOr(tEq(x, mkInt(1)), tEq(y, mkInt(1))), mkInt(1), mkInt(0))
+		default:
+			z = tIte(tEq(x, y), mkInt(0), mkInt(1))
+		}
+		r = tArith("+", r, tArith("*", mkInt(int64(1)<<uint(i)), z))
+	}
+	if !r.konst {
+		e.bitw[r] = w
+	}
+	return r
 }
